@@ -51,7 +51,11 @@ def body_game(S, t, part):
         m.events.post("pa_s2")
         m.events.post("pc_hit")
     m.events.add_handler("ball_ended", stray)
-    shadow = {p: dict(pc=10, pa=[False, False, False], score=0, awards=0, bonus=7, custom=None) for p in range(1, n + 1)}
+    shadow = {p: dict(pc=10, pa=[False, False, False], score=0, awards=0, bonus=7, custom=None, shot=True) for p in range(1, n + 1)}
+    if S.bool("display_reads_enable_flags_early"):
+        # something (a display, a placeholder) reads every player's persisted enable flag before the player's first ball: reading changes nothing
+        for q in range(n):
+            _ = g.player_list[q].shot_ps_enabled
     turns = 0
     restored_checked = 0
     for ball in (1, 2):
@@ -68,6 +72,9 @@ def body_game(S, t, part):
                 raise Violation("persisted-state-restored-on-next-turn", "LogicBlock.device_loaded_in_mode", "player %d ball %d: counter value %s, the player had %s" % (p, ball, pc.value, sh["pc"]))
             if list(pa.value) != sh["pa"]:
                 raise Violation("persisted-state-restored-on-next-turn", "LogicBlock.device_loaded_in_mode", "player %d ball %d: accrual %s, the player had %s" % (p, ball, list(pa.value), sh["pa"]))
+            if bool(m.shots["ps"].enabled) != sh["shot"]:
+                raise Violation("new-game-starts-from-configured-initial-values" if ball == 1 else "persisted-state-restored-on-next-turn", "EnableDisableMixin.device_loaded_in_mode",
+                                "player %d ball %d: shot ps enabled=%s, expected %s (start_enabled: true, disabled by this player: %s)" % (p, ball, m.shots["ps"].enabled, sh["shot"], not sh["shot"]))
             if m.counters["pc_fresh"].value != 0:
                 raise Violation("non-persisted-state-starts-fresh", "LogicBlock.device_loaded_in_mode", "non-persisted counter starts at %s" % m.counters["pc_fresh"].value)
             if g.player.score != sh["score"] or g.player["awards"] != sh["awards"] or g.player["bonus"] != sh["bonus"]:
@@ -91,6 +98,9 @@ def body_game(S, t, part):
                 m.events.post("pm_award")
                 sh["score"] += 100
                 sh["awards"] += 1
+            if S.bool("disable_shot_b%dp%d" % (ball, p)):
+                m.events.post("ps_disable")
+                sh["shot"] = False
             t2 = S.choice("timer2_b%dp%d" % (ball, p), 3)          # 0 nothing, 1 start, 2 start then timed pause (resumes after 2 s)
             if t2 >= 1:
                 m.events.post("pt2_start")
@@ -163,6 +173,11 @@ def body_var(S, t, part):
         a, b = S.real("a", -100, 100), S.real("b", -100, 100)
     else:
         a, b = ["", "x", "yy"][S.choice("a", 3)], ["", "x", "zz"][S.choice("b", 3)]
+    if S.bool("read_before_first_set"):
+        # reading a variable that does not exist yields 0 and is not a change: nothing is created, nothing is posted
+        if p.x != 0 or p["x"] != 0:
+            raise Violation("player-variable-holds-last-value", "Player.__getattr__", "unset variable reads as %r" % (p.x,))
+        t.advance_time_and_run(0.01)
     p["x"] = a
     t.advance_time_and_run(0.01)
     p["x"] = b
